@@ -743,11 +743,9 @@ pub(crate) mod verif_trace {
 
     pub(crate) fn rel_ms(i: Instant) -> i128 {
         let base = *BASE.get_or_init(|| i);
-        if i >= base {
-            (i - base).as_millis() as i128
-        } else {
-            -((base - i).as_millis() as i128)
-        }
+        // floor in both directions, so that instants before and after the base keep their distances
+        let nanos = if i >= base { (i - base).as_nanos() as i128 } else { -((base - i).as_nanos() as i128) };
+        nanos.div_euclid(1_000_000)
     }
 
     pub(crate) struct Guard {
